@@ -36,7 +36,7 @@ RULE = ('all DAGs on n cells (fixed topological order) x 4 variants x every '
         'itself in the focus (extraction has to follow a reference)')
 N = {'quick': 4, 'thorough': 5}
 BOUNDS = {t: {'cells': N[t], 'graphs': 2 ** (N[t] * (N[t] - 1) // 2),
-              'variants': 9, 'change_values': [0, 7]} for t in N}
+              'variants': 11, 'change_values': [0, 7]} for t in N}
 ASSUMPTIONS = ['reference closure: reachability in the generated graph']
 TECHNIQUE = ('exhaustive enumeration of dependency DAGs x focus sets x model '
              'states, extract() executed on the real model, differential '
@@ -52,7 +52,14 @@ LEVEL_NOTE = ('Every step runs the implementation; the only model is the '
               'n <= 4 (5) cells, two alternative values per input.')
 
 VARIANTS = ('direct', 'range', 'two-sheets', 'name', 'range-blank', 'mirror',
-            'twin-coord', 'name-case', 'gap')
+            'twin-coord', 'name-case', 'gap', 'range-za', 'range-name')
+# range-za: the cells lie in one row across the Z / AA column boundary and
+#   contiguous dependencies are written as a range (Y1:AB1);
+# range-name: the last two cells have a range name (q1_rng) that formulas
+#   depending on both use, while a formula OUTSIDE every focus names the same
+#   rectangle literally.
+ZA_COLS = ('Y', 'Z', 'AA', 'AB', 'AC')
+RNAME = 'q1_rng'
 # twin-coord: cells 2k and 2k+1 have the same coordinate on two sheets (one
 #   formula then names Sheet1!B1 and Sheet2!B1);
 # name-case: the formulas spell the defined name in upper case (whatever the
@@ -102,6 +109,8 @@ def row_of(i, variant):
 
 
 def addr(i, variant):
+    if variant == 'range-za':
+        return 'Sheet1!%s1' % ZA_COLS[i]
     return '%s!B%d' % (sheet_of(i, variant), row_of(i, variant))
 
 
@@ -113,6 +122,8 @@ def ref_text(i, j, variant, n):
         return NAME.upper()
     if variant in ('two-sheets', 'twin-coord'):
         return '%s!B%d' % (sheet_of(j, variant), row_of(j, variant))
+    if variant == 'range-za':
+        return '%s1' % ZA_COLS[j]
     return 'B%d' % (j + 1)
 
 
@@ -122,6 +133,12 @@ def formula_of(i, deps_i, variant, n):
     if variant in ('range', 'range-blank') and len(deps_i) >= 2 and \
             deps_i == list(range(deps_i[0], deps_i[-1] + 1)):
         return '=SUM(B%d:B%d)' % (deps_i[0] + 1, deps_i[-1] + 1)
+    if variant == 'range-za' and len(deps_i) >= 2 and \
+            deps_i == list(range(deps_i[0], deps_i[-1] + 1)):
+        return '=SUM(%s1:%s1)' % (ZA_COLS[deps_i[0]], ZA_COLS[deps_i[-1]])
+    if variant == 'range-name' and deps_i[-2:] == [n - 2, n - 1]:
+        rest = ''.join('+B%d*%d' % (j + 1, MULT[j]) for j in deps_i[:-2])
+        return '=SUM(%s)%s' % (RNAME, rest)
     if variant == 'range-blank':
         # a formula whose value is the empty text while the last cell (an
         # input) is > 3 - i.e. initially - and a number after a change
@@ -159,6 +176,25 @@ def build(code, n, variant):
                                                           code))
         with open(path, 'wb') as fp:
             fp.write(R.build([('Sheet1', s1), ('Sheet2', s2)]))
+        import warnings
+        with warnings.catch_warnings():
+            warnings.simplefilter('ignore')
+            model = lib.ModelCompiler().read_and_parse_archive(path)
+        os.unlink(path)
+        return model, deps
+    if variant == 'range-name':
+        cells = {}
+        for i in range(n):
+            f = formula_of(i, deps[i], variant, n)
+            cells['B%d' % (i + 1)] = {'form': 'f', 'f': f[1:]} if f else \
+                {'form': 'n', 'v': i + 1}
+        # outside every focus: the same rectangle, written literally
+        cells['K9'] = {'form': 'f', 'f': 'MAX(B%d:B%d)' % (n - 1, n)}
+        path = os.path.join(tmpdir(), 'r_%d_%d_%d.xlsx' % (os.getpid(), n,
+                                                          code))
+        with open(path, 'wb') as fp:
+            fp.write(R.build([('Sheet1', cells)],
+                             {RNAME: 'Sheet1!$B$%d:$B$%d' % (n - 1, n)}))
         import warnings
         with warnings.catch_warnings():
             warnings.simplefilter('ignore')
